@@ -40,7 +40,7 @@ func chunkings(class string, n int, tier string, heavy bool) []chunking {
 			if heavy && tier == "quick" && !(k <= 8 || k%16 == 0 || k >= n-8) {
 				continue // parameter sets: a decode costs milliseconds
 			}
-			if n <= 1024 || tier == "thorough" && n <= 8192 || k <= 256 || k%61 == 0 || k >= n-64 {
+			if n <= 1024 || tier == "thorough" && n <= 65536 || k <= 256 || k%61 == 0 || k >= n-64 {
 				cs = append(cs, chunking{name: "split", splitAt: k, zeroAt: -1})
 			}
 		}
@@ -53,7 +53,7 @@ func chunkings(class string, n int, tier string, heavy bool) []chunking {
 		}
 	default: // one (0,nil) read injected at a position: every position for small objects
 		var zs []int
-		if n <= 256 || tier == "thorough" && n <= 4096 {
+		if n <= 256 || tier == "thorough" && n <= 16384 {
 			for i := 0; i < n; i++ {
 				zs = append(zs, i)
 			}
